@@ -3,7 +3,9 @@
 mod common;
 mod e1;
 mod e2;
+mod e2_arp;
 mod e2_link;
+mod e2_udp;
 mod e3;
 mod sim;
 mod rng;
